@@ -41,7 +41,18 @@ BUDGET = {'quick': 1200, 'thorough': 5400}
 P, Q = spaces.P, spaces.Q
 CHECKERS = ('CTL', 'LTL', 'CTLS')
 
+class StObj(object):
+    """A state object hashed and compared by identity."""
+
+    def __init__(self, i):
+        self.i = i
+
+    def __repr__(self):
+        return 'StObj#%d@%x' % (self.i, id(self))
+
+
 NAMES = {
+    'objects': lambda i: StObj(i),
     'ints': lambda i: i,
     'rev-ints': lambda i: 10 - i,
     'spaced': lambda i: (8, 1, 17, 40)[i],
@@ -223,6 +234,16 @@ def _closure_wrapper(formula):
     return OrderedClosure(cl, fn(list(cl)))
 
 
+def run_route(route, Kl, f):
+    """LTL: LTL.modelcheck on LTL-typed objects; LTL<-CTLS: LTL.modelcheck on CTL*-typed objects;
+    CTLS: CTLS.modelcheck on CTL*-typed objects (falls back to the tableau for non-CTL formulas)."""
+    if route == 'LTL':
+        return run_mc('LTL', Kl, f)
+    if route == 'LTL<-CTLS':
+        return as_state_set(call(lib.LTL.modelcheck, Kl, lib.build(f, lib.CTLS)))
+    return as_state_set(call(lib.CTLS.modelcheck, Kl, lib.build(f, lib.CTLS)))
+
+
 def sort_key(a):
     from pyModelChecking import CTLS
     if isinstance(a, CTLS.Not) and isinstance(a.subformula(0), CTLS.X):
@@ -230,7 +251,7 @@ def sort_key(a):
     return a.height
 
 
-def closure_orders(k, f, acc, inst, max_orders):
+def closure_orders(k, f, acc, inst, max_orders, route='LTL'):
     """Run LTL.modelcheck under every permutation of each height tie group of the closure."""
     LTLMC._get_closure = _closure_wrapper
     try:
@@ -242,8 +263,8 @@ def closure_orders(k, f, acc, inst, max_orders):
             return seen['items']
         _CL['order_fn'] = probe
         Kl = lib.to_kripke(k)
-        r0 = back(run_mc('LTL', Kl, f), list(range(k.n)))
-        inst.expect(r0, 'closure-order', order='canonical')
+        r0 = back(run_route(route, Kl, f), list(range(k.n)))
+        inst.expect(r0, 'closure-order', order='canonical', route=route)
         items = seen.get('items')
         if not items:
             return
@@ -279,6 +300,25 @@ def closure_orders(k, f, acc, inst, max_orders):
             combos.append([[x for g in groups for x in g[::-1]]])
             exhaustive = False
             acc.add('closure_instances_deviation_bounded')
+        combos = list(combos)
+        # any permutation of a set is a legal iteration order: also try orders that do not depend on
+        # the harness's idea of the tie groups - whole-list reversal, every adjacent transposition,
+        # and every permutation inside groups of equal RAW height
+        combos.append([items[::-1]])
+        for i in range(len(items) - 1):
+            o = list(items)
+            o[i], o[i + 1] = o[i + 1], o[i]
+            combos.append([o])
+        raw = []
+        for key, grp in itertools.groupby(sorted(items, key=lambda x: (x.height, str(x))), key=lambda x: x.height):
+            raw.append(list(grp))
+        nraw = 1
+        for g in raw:
+            for i in range(2, len(g) + 1):
+                nraw *= i
+        if nraw <= max_orders:
+            for combo in itertools.product(*[list(itertools.permutations(g)) for g in raw]):
+                combos.append([[x for g in combo for x in g]])
         for combo in combos:
             order = [x for g in combo for x in g]
             strs = [str(x) for x in order]
@@ -287,8 +327,8 @@ def closure_orders(k, f, acc, inst, max_orders):
                 by = dict((str(x), x) for x in its)
                 return [by[s] for s in strs if s in by] + [x for x in its if str(x) not in set(strs)]
             _CL['order_fn'] = fixed
-            r = back(run_mc('LTL', lib.to_kripke(k), f), list(range(k.n)))
-            if not inst.expect(r, 'closure-order', order=strs):
+            r = back(run_route(route, lib.to_kripke(k), f), list(range(k.n)))
+            if not inst.expect(r, 'closure-order', order=strs, route=route):
                 return
         if exhaustive:
             acc.add('closure_instances_exhaustive')
@@ -431,6 +471,10 @@ def run_shard(shard, tier, seed, acc):
                 inst = Inst(k, 'LTL', f, acc)
                 if inst.base[0] == 'set':
                     closure_orders(k, f, acc, inst, 120 if tier == 'quick' else 720)
+                    if spaces.n_temporal(g) >= 1:
+                        closure_orders(k, f, acc, inst, 24 if tier == 'quick' else 120, route='LTL<-CTLS')
+                        if not __import__('mc.members', fromlist=['x']).ctl_state(f):
+                            closure_orders(k, f, acc, inst, 24 if tier == 'quick' else 120, route='CTLS')
         acc.sample({'k': reps[0].to_json(), 'formula': 'A(G(p) or F(q))', 'orders': 'tie-group permutations'})
         return
     if kind in ('succ2', 'succ3'):
@@ -548,7 +592,7 @@ def replay(art):
     else:
         inst = Inst(k, ck, f, acc)
         if pres == 'closure-order':
-            closure_orders(k, f, acc, inst, 5040)
+            closure_orders(k, f, acc, inst, 5040, route=c.get('route', 'LTL'))
         elif pres == 'successor-order':
             successor_orders(k, ck, f, inst)
         else:
